@@ -174,6 +174,15 @@ def ref_callable(data, mask, ax, fn):
 
 def run(spec, res):
     f = build(spec['file'])
+    if spec.get('form') == 'reduce_dim':
+        # a dimension whose name EXTENDS the reduced one (levp1 next to lev):
+        # it is another dimension and its variables are not to be touched
+        # (only names followed by digits alone are documented to go along)
+        d0 = spec['apply'][0][0]
+        if d0 + 'p1' not in f.dimensions:
+            f.createDimension(d0 + 'p1', 3)
+            dv = f.createVariable('decoy', 'f', (d0 + 'p1',))
+            dv[:] = [1.5, 2.5, 4.0]
     before = snapshot.snap_file(f)
     ioapi = 'ioapi' in spec['file']
     fnmap = {d: fn for d, fn in spec['apply']}
@@ -324,6 +333,12 @@ def run(spec, res):
                 p1 = [p1[0] + ' (neither sequential order of the two '
                       'functions gives the result)']
         problems += p1
+    for d, (ln0, _) in before.dims.items():
+        if d not in fnmap and d in out.dimensions and \
+                len(out.dimensions[d]) != ln0:
+            problems.append('dimension %s (not named in the call) changed '
+                            'length %d -> %d' % (d, ln0,
+                                                 len(out.dimensions[d])))
     for d, ln in expect_len.items():
         if d not in out.dimensions or len(out.dimensions[d]) != ln:
             problems.append('dimension %s length %s, expected %d' % (
